@@ -38,6 +38,37 @@ def dino_make(cfg, rng):
     return col
 
 
+def tensors_of(obj, out=None):
+    import torch
+    out = [] if out is None else out
+    if torch.is_tensor(obj):
+        out.append(obj)
+    elif isinstance(obj, dict):
+        for v in obj.values():
+            tensors_of(v, out)
+    elif isinstance(obj, (list, tuple)):
+        for v in obj:
+            tensors_of(v, out)
+    return out
+
+
+class Handed:
+    """What a call handed out (batch + ctx): must still be what it was after the collator served the next batch."""
+
+    def __init__(self):
+        self.kept = []
+
+    def keep(self, *objs):
+        self.kept = [(t, t.clone()) for t in tensors_of(objs)]
+
+    def changed(self):
+        import torch
+        return any(t.shape != c.shape or not torch.equal(t, c) for t, c in self.kept)
+
+
+LAST = [None]  # (out, ctx) of the most recent dino_call
+
+
 def dino_call(col, cfg, B):
     """One collate call of batch size B on the (possibly already used) collator; returns (kind, info) like dino_run."""
     import torch
@@ -50,6 +81,7 @@ def dino_call(col, cfg, B):
         out, ctx = col(batch)
     except Exception as e:
         return f"exception:{type(e).__name__}", repr(e)
+    LAST[0] = (out, ctx)
     H, W = cfg["grid"]
     try:
         m = ctx.get("mask")
@@ -78,17 +110,21 @@ def dino_run(cfg, rng):
     return dino_call(dino_make(cfg, rng), cfg, cfg["B"])
 
 
-BATCH_SEQUENCES = ((4, 2), (2, 4, 1), (3, 1, 3), (4, 4, 3))
+BATCH_SEQUENCES = ((4, 2), (2, 4, 1), (3, 1, 3), (4, 4, 3), (2, 2, 2))
 
 
 def dino_sequence(cfg, rng, seq):
     """The same collator object used for batches of different sizes (e.g. the short last batch of an epoch)."""
     col = dino_make(cfg, rng)
     obs = []
+    handed = Handed()
     for k, B in enumerate(seq):
         kind, info = dino_call(col, cfg, B)
         if kind:
             return kind + "|after_other_batch_sizes", f"call {k} of batch sizes {seq}: {info}"
+        if handed.changed():
+            return "returned_masks_changed_by_next_call", f"call {k} of batch sizes {seq} overwrote what call {k - 1} returned"
+        handed.keep(*LAST[0])
         obs.append(info)
     return None, tuple(obs)
 
@@ -229,6 +265,7 @@ def ijepa_seeded(cfg, p):
     for seed in range(16):
         col = make_ijepa(cfg)
         rng = np.random.default_rng(seed)
+        handed = Handed()
         for step in range(4):
             p.evaluations += 1
             try:
@@ -237,6 +274,11 @@ def ijepa_seeded(cfg, p):
                 p.violation(f"C17:ijepa:exception:{type(e).__name__}|min_keep={'0' if cfg['min_keep'] == 0 else '>0'}", dict(case, seed=seed, step=step),
                             f"{cfg} seed {seed} step {step}: {e!r}")
                 break
+            if handed.changed():
+                p.violation("C17:ijepa:returned_masks_changed_by_next_call", dict(case, seed=seed, step=step),
+                            f"{cfg} seed {seed}: the call of step {step} overwrote the masks returned at step {step - 1}")
+                break
+            handed.keep(out, ctx)
             try:
                 kind, info, o = ijepa_check(cfg, out, ctx, step)
             except Exception as e:
